@@ -8,6 +8,7 @@ PID = "C01"
 LEVEL = "other"
 CRATES = ["rlib_segtree"]
 RELEASE = True
+DEPENDS = ["C02"]   # the histories the property quantifies over include the boundary searches, which share the descent and the carry with the queries
 ARMED = True
 ENGINES = ["E1", "E3", "E4a"]
 TECHNIQUE = "path-sensitive term-flow abstract interpretation of every descent/build function: event-order rules (push before descend, merge after write), linear-term equality of node/bounds arguments, inductive range-containment and partition obligations in the difference-bound domain, operand-order and field-flow rules for the built-in items and the pair combinator"
@@ -515,9 +516,15 @@ def rule_routing(col, R, rid, sfx, only=None):
                 for (op, x, y) in entry:
                     facts.add(("eq", ("bin", op, x, y), 1))
                 z = zones.zone_of(frozenset((f[0], norm_mid(f[1], Pvl, Pvr), f[2]) if f[0] != "imp" else f for f in facts), I.tys)
-                ok = z.entails("Eq", ranges[0][0], Pl) and z.entails("Eq", ranges[-1][1], Pr)
-                for (a1, b1, _), (a2, b2, _) in zip(ranges, ranges[1:]):
-                    ok = ok and z.entails("Eq", ("bin", "Add", b1, mk_int(1)), a2)
+                def tiles(rs):
+                    good = z.entails("Eq", rs[0][0], Pl) and z.entails("Eq", rs[-1][1], Pr)
+                    for (a1, b1, _), (a2, b2, _) in zip(rs, rs[1:]):
+                        good = good and z.entails("Eq", ("bin", "Add", b1, mk_int(1)), a2)
+                    return good
+
+                # the children may be visited in either order (they are disjoint subtrees); which answer is the left
+                # operand of the merge is the operand rule's business, not the order of the calls
+                ok = tiles(ranges) or tiles(ranges[::-1])
                 key = "%s|partition|%d" % (fk(b), len(ranges))
                 if ok:
                     col.ok(rid + sfx, b.loc(recs[0].bb), key, "the routed ranges concatenate to [l, r] in index order")
